@@ -589,6 +589,11 @@ class TLSConnection(TLSRecordLayer):
             self._recordLayer.encryptThenMAC = True
 
         if serverHello.getExtension(ExtensionType.extended_master_secret):
+            if self.version == (3, 0):
+                for result in self._sendError(
+                        AlertDescription.illegal_parameter,
+                        "Extended master secret negotiated with SSLv3"):
+                    yield result
             self.extendedMasterSecret = True
 
         # If the server elected to resume the session, it is handled here.
@@ -2493,7 +2498,11 @@ class TLSConnection(TLSRecordLayer):
             self._recordLayer.encryptThenMAC = True
 
         if settings.useExtendedMasterSecret:
-            if clientHello.getExtension(ExtensionType.extended_master_secret):
+            # RFC 7627 is defined for TLS only, there is no SSLv3 variant of
+            # the extended master secret calculation
+            if clientHello.getExtension(
+                    ExtensionType.extended_master_secret) and \
+                    version > (3, 0):
                 extensions.append(TLSExtension().create(ExtensionType.
                                                         extended_master_secret,
                                                         bytearray(0)))
